@@ -112,26 +112,31 @@ func parseStrace(file, root string) ([]fsOp, error) {
 	sc := bufio.NewScanner(f)
 	sc.Buffer(make([]byte, 1<<20), 64<<20)
 	fds := map[int]string{}
+	partial := map[int]string{}
 	var ops []fsOp
 	seenMarker := false
 	for sc.Scan() {
 		line := sc.Text()
+		pid := 0
 		if i := strings.Index(line, " "); i > 0 { // strip pid
-			if _, err := strconv.Atoi(line[:i]); err == nil {
+			if v, err := strconv.Atoi(line[:i]); err == nil {
+				pid = v
 				line = strings.TrimSpace(line[i:])
 			}
 		}
-		if strings.Contains(line, "<unfinished") || strings.Contains(line, "resumed>") {
-			// go's file syscalls on regular files do not block long; unfinished/resumed pairs are rare. Treat as infra problem if they concern our files.
-			if strings.Contains(line, "write(") || strings.Contains(line, "openat(") || strings.Contains(line, "rename") {
-				strs := straceStr.FindAllStringSubmatch(line, -1)
-				for _, m := range strs {
-					if strings.HasPrefix(unhex(m[1]), root) {
-						return nil, fmt.Errorf("split syscall record on a traced file: %s", line[:min(len(line), 120)])
-					}
-				}
-			}
+		// with -f a call of one thread may be reported in two pieces around calls of other threads:
+		// "openat(... <unfinished ...>" and "<... openat resumed>) = 7"; the call took effect when it completed
+		if i := strings.Index(line, "<unfinished ...>"); i >= 0 {
+			partial[pid] = line[:i]
 			continue
+		}
+		if strings.HasPrefix(line, "<... ") {
+			j := strings.Index(line, "resumed>")
+			if j < 0 {
+				continue
+			}
+			line = partial[pid] + line[j+len("resumed>"):]
+			delete(partial, pid)
 		}
 		ret := -1
 		if i := strings.LastIndex(line, " = "); i > 0 {
@@ -345,6 +350,9 @@ func c04CacheEnumerate(t *testing.T) func(tier string, run func(*sim.Scn) *sim.O
 		desc := ""
 		for fi, first := range []bool{false, true} {
 			_, states, labels, d, err := c04CacheStates(t, first)
+			for attempt := 0; attempt < 3 && err != nil; attempt++ {
+				_, states, labels, d, err = c04CacheStates(t, first) // the recording is repeated if it could not be parsed
+			}
 			if err != nil {
 				fmt.Printf("note: cache-file crash states not enumerated: %v\n", err)
 				return "cache-file crash states: NOT enumerated in this run (" + err.Error() + ")"
